@@ -23,6 +23,7 @@ import (
 	"os/exec"
 	"runtime"
 	"strings"
+	"sync"
 	"syscall"
 	"testing"
 	"testing/synctest"
@@ -50,19 +51,17 @@ func (s *vSlowSink) Write(p []byte) (int, error) {
 	return len(p), nil
 }
 
-func TestVerifSlowSink(t *testing.T) {
-	out := verifh.Open()
-	defer out.Close()
-	if !out.Wants("slowsink") {
-		return
-	}
+func vSlowSinkRun(forwarding bool) (viol []string, obs map[string]any) {
 	allNodes := netip.MustParseAddr("ff02::1")
 	sink := &vSlowSink{}
+	vSlowMu.Lock()
 	vLogSink = sink
-	defer func() { vLogSink = io.Discard }()
 	cfg := config.Interface{Name: "v0", Advertise: true, Verbose: true, MinInterval: 200 * time.Second, MaxInterval: 600 * time.Second,
 		HopLimit: 64, DefaultLifetime: 1800 * time.Second, Plugins: []plugin.Plugin{&plugin.LLA{}}}
 	v := newVAdvertiser(cfg, func() bool { return false })
+	vLogSink = io.Discard
+	vSlowMu.Unlock()
+	v.state.setForwarding("v0", forwarding)
 	cancel, done := v.run()
 	select {
 	case <-v.ad.Ready():
@@ -85,7 +84,6 @@ func TestVerifSlowSink(t *testing.T) {
 	ws := v.cur().snapshot()
 	cancel()
 	<-done
-	var viol []string
 	var multicasts, unicasts int
 	var last int64 = -1
 	answered := map[string]int{}
@@ -113,9 +111,31 @@ func TestVerifSlowSink(t *testing.T) {
 	if len(viol) > 3 {
 		viol = viol[:3]
 	}
-	out.Emit(verifh.Case{ID: "slowsink", Input: map[string]any{"kind": "slow-log-sink", "verbose": true},
-		Observed: map[string]any{"multicast": multicasts, "unicast": unicasts, "log_lines": sink.lines, "slow_lines": sink.slow},
-		Tags:     []string{"stream:slow-log-sink"}, ImplViolation: strings.Join(viol, "; ")})
+	return viol, map[string]any{"multicast": multicasts, "unicast": unicasts, "log_lines": sink.lines, "slow_lines": sink.slow}
+}
+
+var vSlowMu sync.Mutex
+
+func TestVerifSlowSink(t *testing.T) {
+	out := verifh.Open()
+	defer out.Close()
+	if !out.Wants("slowsink") && !out.Wants("slowsink-not-forwarding") {
+		return
+	}
+	type res struct {
+		viol []string
+		obs  map[string]any
+	}
+	a, b := make(chan res, 1), make(chan res, 1)
+	go func() { v, o := vSlowSinkRun(true); a <- res{v, o} }()
+	go func() { v, o := vSlowSinkRun(false); b <- res{v, o} }()
+	ra, rb := <-a, <-b
+	out.Emit(verifh.Case{ID: "slowsink", Input: map[string]any{"kind": "slow-log-sink", "verbose": true, "forwarding": true},
+		Observed: ra.obs, Tags: []string{"stream:slow-log-sink"}, ImplViolation: strings.Join(ra.viol, "; ")})
+	// on an interface that is NOT forwarding the advertiser itself logs a warning for every RA it builds -- inside the
+	// send worker, after the scheduler has booked the transmission: known finding log_before_write_not_forwarding
+	out.Emit(verifh.Case{ID: "slowsink-not-forwarding", Input: map[string]any{"kind": "slow-log-sink", "verbose": true, "forwarding": false},
+		Observed: rb.obs, Tags: []string{"stream:slow-log-sink", "forwarding:off"}, ImplViolation: strings.Join(rb.viol, "; "), Class: "log_before_write_not_forwarding"})
 }
 
 // vNowAt is the virtual-ns stamp of an instant.
